@@ -5,7 +5,7 @@ base = json.load(open("/root/.vp/BASELINE.json"))
 repo = sys.argv[1] if len(sys.argv) > 1 else "/repo"
 with tempfile.NamedTemporaryFile(suffix=".xml", delete=False) as f:
     x = f.name
-env = dict(os.environ); env.pop("ZIGPY_ZBOSS_VERIF", None)
+env = dict(os.environ); env.pop("ZIGPY_ZBOSS_VERIF", None); env["PYTHONPATH"] = repo
 subprocess.run("cd %s && /venv/bin/python -m pytest -ra -q -p no:cacheprovider --timeout=900 "
                "--continue-on-collection-errors --junitxml=%s >/dev/null 2>&1" % (repo, x), shell=True, env=env)
 passed = set()
